@@ -80,7 +80,10 @@ Outcome(c) ==
     ELSE IF IsArg(c) /\ m = "blockwise" /\ ~c.oneBlock THEN Refuse("NotImplementedError")
     ELSE IF IsArg(c) /\ m # "blockwise" /\ c.byNdim = 2 /\ c.allAxes THEN Refuse("NotImplementedError")   \* several reduced axes
     ELSE IF ~c.allAxes /\ m \in {"blockwise", "cohorts"} THEN Refuse("NotImplementedError")
-    ELSE LET v2 == ValidateReindex(c, m) IN
+    ELSE LET \* the second validation receives the strategy resolved by the first one (a True/False answer is kept;
+             \* only "not yet decided" is resolved with the method finally chosen)
+             c2 == IF v1 = "T" THEN [c EXCEPT !.reindex = "true"] ELSE IF v1 = "F" THEN [c EXCEPT !.reindex = "false"] ELSE c
+             v2 == ValidateReindex(c2, m) IN
          IF v2 = "VE" THEN Refuse("ValueError")
          ELSE IF v2 = "NIE" THEN Refuse("NotImplementedError")
          ELSE IF ~c.expected /\ c.byDask /\ v2 = "T" THEN Refuse("ValueError")
